@@ -577,6 +577,31 @@ pub fn run(ctx: &Ctx) -> Outcome {
             }
         }
     });
+    // 4. the clock itself: Utc::now() / Local::now() lie between two readings of the system clock,
+    //    and SystemTime -> DateTime<Local> keeps the instant
+    {
+        let mut loc = rep.local();
+        for _ in 0..200 {
+            loc.eval();
+            let t0 = SystemTime::now();
+            let r = guard(|| (Utc::now(), chrono::Local::now()));
+            let t1 = SystemTime::now();
+            match r {
+                Ok((u, l)) => {
+                    let (su, sl) = (SystemTime::from(u), SystemTime::from(l));
+                    // the system clock may step backwards between two readings; only judge when it did not
+                    if t1 >= t0 && (su < t0 || su > t1 || sl < t0 || sl > t1) {
+                        loc.violation("C02/now/not-between-two-system-clock-readings", json!({"utc_now": format!("{:?}", u.naive_utc())}));
+                    }
+                    let back = DateTime::<chrono::Local>::from(t0);
+                    if SystemTime::from(back) != t0 || DateTime::<Utc>::from(t0).naive_utc() != back.naive_utc() {
+                        loc.violation("C02/From<SystemTime>-for-DateTime<Local>/wrong-instant", json!({"value": format!("{:?}", back.naive_utc())}));
+                    }
+                }
+                Err(p) => loc.violation(&format!("C02/now/panic@{}", p.site()), json!({"panic": p.to_json()})),
+            }
+        }
+    }
     rep.finish(
         ctx,
         "seconds catalogue (i64 extremes, range ends ±3, day boundaries of catalogue dates, ±2^63 ns window) × 16 nanosecond fields; per-unit catalogues; every second of six days × 4 ns fields; every ms of ±3 s around the epoch; random counts (uniform in range, raw i64, log-uniform, near range ends) in the four units; reverse direction from random/boundary civil date-times. Non-trivial: count or ns field at a unit/day/range boundary or rejected; distinct = distinct (unit, count, ns) triples (hashed bitmap)",
